@@ -27,7 +27,7 @@ add("C03", "exploration", "svmc-E1",
     "DESIGN.md 4/C03")
 add("C15", "model_checking", "svmc-E2",
     "explicit-state BFS over the real SourceView's line-index states to a fixpoint, plus unmerged request histories",
-    "For every text up to length 7/9 over {a,\\n,\\r,e-acute,astral} a breadth-first search over the request alphabet runs on the real SourceView until no new real state (progress counter + cached line table, read through the cfg hook) appears, comparing every answer with the split/slice model; this covers request sequences of any length. All (line, col, span) triples incl. values near 2^32 are checked on fresh and indexed views.",
+    "For every text up to length 6/8 over {a,\\n,\\r,e-acute (2 bytes),arrow (3 bytes),astral (4 bytes)} a breadth-first search over the request alphabet runs on the real SourceView until no new real state (progress counter + cached line table, read through the cfg hook) appears, comparing every answer with the split/slice model; this covers request sequences of any length. All (line, col, span) triples incl. values near 2^32 are checked on fresh and indexed views.",
     "Equal real states are assumed to have equal futures (the hook returns the whole mutable state); an unmerged-history slice does not rely on it. Mid-pair slice starts: crash-freedom only.",
     "DESIGN.md 4/C15")
 add("C18", "exploration", "svmc-E1",
@@ -100,8 +100,8 @@ add("C14", "exploration", "svmc-E1",
     "DESIGN.md 4/C14")
 
 add("C16", "model_checking", "svloom-E3",
-    "stateless DPOR exploration (loom) of all thread interleavings of the real SourceView under a controlled scheduler",
-    "SourceView's Mutex and AtomicUsize are switched to loom's by a cfg in a shadow package that compiles /repo's live sources. 2000 (quick) / ~50000 (thorough) configurations = text x per-thread call programs over {get_line(0), get_line(1), get_line(9), line_count, lines().collect}; 2 threads explored exhaustively (unbounded DPOR; the heaviest pairs with preemption bound 3/4), 3 and 4 threads up to preemption bound 2-3, selected 3-thread configurations unbounded. Every call's answer is compared with the single-threaded answer; panics, deadlocks and an unusable view after join are violations.",
+    "two controlled-scheduler explorations of the real SourceView: exhaustive preemption-bounded depth-first search without reduction (own scheduler on shuttle's runtime) and loom DPOR with the C11 memory model",
+    "SourceView's Mutex and AtomicUsize are switched by a cfg (loom's or shuttle's) in shadow packages that compile /repo's live sources. Engine dfs enumerates EVERY schedule with at most k preemptions (k = 3..5 quick, up to 7 thorough; no bound for single-call pairs over get_line/line_count) - it exists because loom's reduction was found to skip a real interleaving. Engine loom: 2000 (quick) / ~50000 (thorough) configurations = text x per-thread call programs over {get_line(0), get_line(1), get_line(9), line_count, lines().collect}; 2 threads explored exhaustively (unbounded DPOR; the heaviest pairs with preemption bound 3/4), 3 and 4 threads up to preemption bound 2-3, selected 3-thread configurations unbounded. Every call's answer is compared with the single-threaded answer; panics, deadlocks and an unusable view after join are violations.",
     "Only the instrumented Mutex/AtomicUsize are scheduling points (all other data is immutable); loom's memory model; preemption bounds as reported per family in the evidence.",
     "DESIGN.md 4/C16")
 add("C17", "exploration", "svmc-E1",
@@ -156,6 +156,7 @@ def main():
             "add_only": True,
         },
         "engines": [
+            {"name": "svshuttle-E3b", "path": "/verif/harness/svshuttle", "serves_properties": ["C16"], "kind_free_text": "exhaustive preemption-bounded depth-first exploration of thread schedules (no partial-order reduction) with the harness's own scheduler on shuttle's controlled runtime"},
             {"name": "svmc-E1", "path": "/verif/harness/svmc", "serves_properties": [i for i in ids if i in CHECKS and CHECKS[i]["engine"] == "svmc-E1"],
              "kind_free_text": "stateless bounded-exhaustive input exploration of the real crate on 16 worker threads against independent reference models"},
             {"name": "svmc-E2", "path": "/verif/harness/svmc", "serves_properties": [i for i in ids if i in CHECKS and CHECKS[i]["engine"] == "svmc-E2"],
